@@ -169,6 +169,78 @@ func (e *Env) StartNemesis(kinds []string, meanGap time.Duration) {
 	})
 }
 
+// startStaleTermScript: the leader L is cut off from etcd for longer than its lease (its requests stay in flight, as
+// with a gRPC call waiting for the connection to come back), another member M with a faster clock leads for a while,
+// then M steps down and is cut off while L comes back and may win again: whatever L sent in its earlier term is
+// delivered now, possibly after L's new campaign.
+func (e *Env) startStaleTermScript(running *int) {
+	s, w := e.S, e.W
+	e.NemKinds = append(e.NemKinds, "stale-term-script")
+	w.Etcd.Faults.Enabled = true
+	w.Etcd.Faults.PDelay = e.RC.KnobF("st_delay", 0.2, 0.5)
+	w.Etcd.Faults.MaxDelay = e.RC.KnobD("st_max_delay", 300*time.Millisecond, 1500*time.Millisecond)
+	w.Etcd.Faults.ReconnectMax = e.RC.KnobD("st_reconnect", 0, 1500*time.Millisecond, 3*time.Second)
+	done := make(chan struct{})
+	prev := e.nemDone
+	e.nemDone = done
+	s.Spawn(-1, "stale-term-script", func() {
+		defer close(done)
+		defer func() { *running-- }()
+		if prev != nil {
+			defer func() { <-prev; simrt.Resume() }()
+		}
+		for round := 0; round < 4 && !e.stopNem; round++ {
+			simrt.Sleep(time.Duration(1000+s.Choose(4000, "st.wait")) * time.Millisecond)
+			var l *harness.Node
+			for _, n := range w.Nodes {
+				if n.Up && n.Srv != nil && n.Srv.SimMember().IsLeader() {
+					l = n
+				}
+			}
+			if l == nil {
+				continue
+			}
+			var others []*harness.Node
+			for _, n := range w.Nodes {
+				if n != l && n.Up {
+					others = append(others, n)
+				}
+			}
+			if len(others) == 0 {
+				return
+			}
+			m := others[s.Choose(len(others), "st.other")]
+			// M's clock is ahead, so the window it stores lies above L's
+			s.SetWallOffset(m.ID, s.WallOffset(l.ID)+time.Duration(1+s.Choose(6000, "st.skew"))*time.Millisecond)
+			s.Count("fault.stale-term-script")
+			cut := time.Duration(3200+s.Choose(5000, "st.cut")) * time.Millisecond
+			if s.Choose(3, "st.how") == 0 {
+				// ... or the whole process of L is paused instead (its tasks continue where they were when it wakes up)
+				s.FreezeNode(l.ID, cut+time.Duration(s.Choose(1500, "st.thaw"))*time.Millisecond)
+			} else {
+				w.Etcd.SetPartitioned(l.ID, true)
+			}
+			// (an embedded etcd member that is cut off loses the etcd leadership; PD campaigns only on the etcd leader)
+			w.Etcd.SetEtcdLeader(m.ID)
+			simrt.Sleep(cut)
+			if m.Up && m.Srv != nil && m.Srv.SimMember().IsLeader() {
+				srv := m.Srv
+				s.Spawn(m.ID, "resign", func() { srv.SimMember().ResetLeader() })
+				simrt.Sleep(time.Duration(s.Choose(300, "st.resign")) * time.Millisecond)
+			}
+			for _, n := range others {
+				w.Etcd.SetPartitioned(n.ID, true)
+			}
+			w.Etcd.SetPartitioned(l.ID, false)
+			w.Etcd.SetEtcdLeader(l.ID)
+			simrt.Sleep(time.Duration(1500+s.Choose(3000, "st.back")) * time.Millisecond)
+			for _, n := range others {
+				w.Etcd.SetPartitioned(n.ID, false)
+			}
+		}
+	})
+}
+
 func (e *Env) inject(kind string) {
 	s, w := e.S, e.W
 	nd := w.Nodes[s.Choose(len(w.Nodes), "nem.node")]
